@@ -89,7 +89,7 @@ static void child_main (void) {
 		else if (!strcmp (op, "rel")) { pboolean r = p_semaphore_release (sh[h], NULL); int v = -1; sem_getvalue (shraw[h], &v); in_op = 0; c_say ("D %d %d\n", r ? 1 : 0, v); }
 		else if (!strcmp (op, "own")) { p_semaphore_take_ownership (sh[h]); in_op = 0; c_say ("D 1 0\n"); }
 		else if (!strcmp (op, "free")) { p_semaphore_free (sh[h]); sh[h] = NULL; shraw[h] = NULL; in_op = 0; c_say ("D 1 0\n"); }
-		else if (!strcmp (op, "val")) { int v = -1; if (shraw[h]) sem_getvalue (shraw[h], &v); in_op = 0; c_say ("D 1 %d\n", v); }
+		else if (!strcmp (op, "val")) { int v = -1; if (shraw[h]) sem_getvalue (shraw[h], &v); in_op = 0; c_say ("D %d %d\n", shraw[h] ? 1 : 0, v); }
 		else if (!strcmp (op, "shmnew")) {
 			PError *err = NULL; int ecode = 0;
 			snprintf (name, sizeof name, "%s_%s", prefix, a2);
